@@ -7,7 +7,7 @@ import ast
 import hashlib
 import os
 
-REPO_SRC = os.environ.get("PYVC_REPO_SRC", "/repo/src")
+REPO_SRC = os.environ.get("PYVC_REPO_SRC") or os.path.join(os.environ.get("VERIF_REPO") or "/repo", "src")
 
 
 class ModuleInfo:
